@@ -130,6 +130,33 @@ pub fn shapes(tier: Tier) -> Vec<Shape> {
             }
         }
     }
+    // the nested three-level bases after a committed transaction that deleted one key, any two keys,
+    // or any contiguous run of keys (surviving nested buckets are opened and touched in that
+    // transaction): what the merge of under-filled middle leaves leaves behind in the committed tree
+    for b in SUBSET_BASES.iter().filter(|b| b.n >= 11 && !b.buckets.is_empty()) {
+        let n = b.n as u32;
+        let mut masks: Vec<u32> = vec![];
+        for i in 0..n {
+            masks.push(1 << i);
+            for j in i + 1..n {
+                masks.push(1 << i | 1 << j);
+            }
+            for len in 3..=(n - i) {
+                masks.push(((1u32 << len) - 1) << i);
+            }
+        }
+        masks.sort();
+        masks.dedup();
+        for mask in masks {
+            let acts = subset_action(b, mask, 0, false, false);
+            if let Some(Action::Tx { ops, .. }) = acts.into_iter().next() {
+                let mut setup = subset_setup(b);
+                setup.push(Action::Tx { ops, commit: true });
+                setup.push(Action::Reopen);
+                out.push(Shape { name: format!("{}-committed-after-subset-{:x}", b.name, mask), cfg: d.clone(), setup, mid: vec![], full: false });
+            }
+        }
+    }
     if tier == Tier::Thorough {
         let big = Cfg { pagesize: 4096, ..Cfg::default() };
         // same recipes scaled to 4 KiB pages: 6 and 14 entries of ~1200 B, and 3 levels with 800 B keys
